@@ -182,7 +182,9 @@ def run_pairs(rep, cases, family):
         b = vlib.canon(mr)
         if a != b:
             rep.corr_break(family, m["cmd"], out[cid][0], rm.get(cid))
-        elif unused and UNUSED_IS_BREAK:
+        elif unused and UNUSED_IS_BREAK and a.startswith("ok "):
+            # (only for successful calls: when the call fails, how far concurrent frame recompression got before the error is
+            # schedule-dependent and irrelevant)
             # the implementation compressed streams (candidates x filters) that the model's pipeline never produces:
             # the set of transformations actually tried differs from the model's even though this output agrees
             rep.corr_break(family + ": work the model does not predict", m["cmd"],
